@@ -324,6 +324,9 @@ OForms == { [ k |-> "rel", dir |-> << >>, name |-> << "x", "bin" >> ],
             [ k |-> "rel", dir |-> << >>, name |-> << "x", "bin", "bak" >> ],
             [ k |-> "rel", dir |-> << "odir" >>, name |-> << "y", "bin" >> ],
             [ k |-> "rel", dir |-> << ".." >>, name |-> << "z" >> ],
+            [ k |-> "rel", dir |-> << >>, name |-> << "bin" >> ],                \* a name that IS "bin" has no .bin suffix: raw
+            [ k |-> "rel", dir |-> << "odir" >>, name |-> << "Bin" >> ],
+            [ k |-> "rel", dir |-> << "v1", "2" >>, name |-> << "cabin" >> ],
             [ k |-> "abs", dir |-> << "abs", "dir" >>, name |-> << "w", "bin" >> ],
             [ k |-> "stdout", dir |-> << >>, name |-> << "-" >> ],
             [ k |-> "stdout", dir |-> << >>, name |-> << "-", "bin" >> ],        \* pinned: "-." + ext
